@@ -85,6 +85,8 @@ type Report struct {
 	CegarIters  int
 	CacheHits   int
 	KnownHits   int
+	FPWitness   int
+	CrossChecked int
 	WallSecs    float64
 	Exhaustive  bool
 	FrontierLeft int
@@ -280,6 +282,8 @@ func Explore(p *Program, harness string, opt Options) *Report {
 			rep.CegarIters += m.Stats.CegarIters
 			rep.CacheHits += m.Stats.CacheHits
 			rep.KnownHits += m.Stats.KnownHits
+			rep.FPWitness += m.Stats.FPWitness
+			rep.CrossChecked += m.Stats.CrossChecked
 			for _, v := range m.Violations {
 				v.Harness = harness
 				rep.Violations = append(rep.Violations, v)
@@ -340,6 +344,8 @@ func (m *Machine) RunInit(pkg *ssa.Package) (err error) {
 	m.known = map[*Term]bool{}
 	m.bounds = map[*Term]rng{}
 	m.sbounds = map[*Term]srng{}
+	m.fbounds = map[string]frng{}
+	m.fvarSort = map[string]bool{}
 	m.rmemo = map[*Term]rng{}
 	m.stubs = map[string]value{}
 	m.locks = map[*value]int{}
@@ -375,8 +381,8 @@ func (m *Machine) RunInit(pkg *ssa.Package) (err error) {
 // Summary renders a short human-readable report.
 func (r *Report) Summary() string {
 	var sb strings.Builder
-	fmt.Fprintf(&sb, "harness %s: paths=%d completed=%d infeasible=%d incomplete=%d branches=%d asserts_ok=%d violations=%d exhaustive=%v wall=%.1fs solver=%.1fs queries=%d (sat %d unsat %d unknown %d err %d) cegar=%d cache_hits=%d implied=%d\n",
-		r.Harness, r.Paths, r.Completed, r.Infeasible, r.Incomplete, r.Branches, r.AssertsOK, len(r.Violations), r.Exhaustive, r.WallSecs, r.SolverSecs, r.Queries, r.QSat, r.QUnsat, r.QUnknown, r.QErrors, r.CegarIters, r.CacheHits, r.KnownHits)
+	fmt.Fprintf(&sb, "harness %s: paths=%d completed=%d infeasible=%d incomplete=%d branches=%d asserts_ok=%d violations=%d exhaustive=%v wall=%.1fs solver=%.1fs queries=%d (sat %d unsat %d unknown %d err %d) cegar=%d cache_hits=%d implied=%d fp_witness=%d cross_checked=%d\n",
+		r.Harness, r.Paths, r.Completed, r.Infeasible, r.Incomplete, r.Branches, r.AssertsOK, len(r.Violations), r.Exhaustive, r.WallSecs, r.SolverSecs, r.Queries, r.QSat, r.QUnsat, r.QUnknown, r.QErrors, r.CegarIters, r.CacheHits, r.KnownHits, r.FPWitness, r.CrossChecked)
 	if r.EngineError != "" {
 		fmt.Fprintf(&sb, "  ENGINE ERROR: %s\n", r.EngineError)
 	}
